@@ -133,12 +133,25 @@ def fn_key(f):
     return f.qual
 
 
+HELPER_FNS = {}  # private free functions of data_type/function.rs, by name (filled by rule_m)
+
+
 def resolve(n, fn):
-    """follow `let name = <init>;` of the enclosing function for an argument given by name (extracted closure / domain)."""
+    """follow `let name = <init>;` of the enclosing function for an argument given by name (extracted closure / domain); a call `helper()` of a private
+    zero-argument function of the file whose body is one expression (a table of pieces factored out) is read as that expression."""
     for _ in range(4):
         if n["k"] == "ref":
             n = n["e"]
             continue
+        if n["k"] == "call" and not n["args"] and n["f"]["k"] == "path" and len(n["f"]["segs"]) == 1 and n["f"]["segs"][0] in HELPER_FNS:
+            h = HELPER_FNS[n["f"]["segs"][0]]
+            b = h.body
+            while b["k"] == "block" and len(b["stmts"]) == 1 and b["stmts"][0]["k"] == "expr":
+                b = b["stmts"][0]["e"]
+            if b["k"] != "block":
+                n = b
+                continue
+            break
         if n["k"] != "path" or len(n["segs"]) != 1:
             break
         lets = [x for x in find(fn.body, "let") if x["pat"]["k"] in ("ident", "typed") and (x["pat"] if x["pat"]["k"] == "ident" else x["pat"]["pat"]).get("name") == n["segs"][0] and x.get("init")]
@@ -220,6 +233,16 @@ def cell_str(c):
 
 def analyse(site, piece):
     k = len(site.types)
+    if site.closure["k"] == "path" and len(site.closure["segs"]) == 2 and site.closure["segs"][0] in ("f64", "f32", "i64", "i32", "u64", "bool", "str", "String") and site.ctor not in ("from_intervals", "from_partitions"):
+        # a point-free method path `f64::max` / `i64::saturating_add` / `f64::ceil` is the closure |x0, ..| x0.method(x1, ..)
+        l = site.closure.get("l", 0)
+        ps = [{"k": "ident", "name": "x%d" % i, "l": l} for i in range(k)]
+        site.closure = {
+            "k": "closure",
+            "l": l,
+            "params": ps,
+            "body": {"k": "mcall", "l": l, "m": site.closure["segs"][1], "recv": {"k": "path", "l": l, "p": "x0", "segs": ["x0"]}, "args": [{"k": "path", "l": l, "p": "x%d" % i, "segs": ["x%d" % i]} for i in range(1, k)]},
+        }
     if site.closure["k"] != "closure":
         raise Undec("the value function `%s` is not a closure literal" % show(site.closure, 60))
     names = closure_params(site.closure, site.ctor)
@@ -240,6 +263,8 @@ def piece_str(site, piece):
 
 
 def rule_m(rep, src):
+    HELPER_FNS.clear()
+    HELPER_FNS.update({f.name: f for f in src.fns if f.file == FN and not f.self_ty and not f.test and f.body and not [p for p in f.params if not p.get("self")] and (f.node.get("vis") or "") != "pub"})
     rep.rule(
         "M",
         "every closure passed to a PartitionnedMonotonic constructor (outside tests) is, on every declared piece, monotone in each non-boolean coordinate for fixed others "
@@ -533,7 +558,10 @@ def rule_t(rep, src):
     if len(fs) != 2:
         raise Anchor("impl IntervalsProduct for Term<Intervals<B>, Next>::{union, intersection}: found %d" % len(fs))
     norm = lambda e: _re.sub(r"\.clone\(\)|&|\s", "", show(e, 0))
-    for f in fs:
+    from .canon import canon_view
+
+    for f0 in fs:
+        f = canon_view(f0, src, helpers=False)  # `let head = ..; let tail = ..; Term::from_value_next(head, tail)` is read through
         key = "Term<Intervals<B>, Next>::%s" % f.name
         other = [p["pat"]["name"] for p in f.params if not p.get("self")]
         t = f.body
@@ -544,7 +572,7 @@ def rule_t(rep, src):
         if t["k"] == "call" and (path_of(t["f"]) or "").split("::")[-1] == "from_value_next" and len(t["args"]) == 2 and other:
             o = other[0]
             a, b = norm(t["args"][0]), norm(t["args"][1])
-            ok = a == "self.value.%s(%s.value)" % (f.name, o) and b == "self.next.%s(%s.next)" % (f.name, o)
+            ok = a in ("self.value.%s(%s.value)" % (f.name, o), "%s.value.%s(self.value)" % (o, f.name)) and b in ("self.next.%s(%s.next)" % (f.name, o), "%s.next.%s(self.next)" % (o, f.name))
         rep.instance("T", key, {"fn": f.name, "returns": got})
         if not ok:
             rep.violation("T", key, "%s of a product is not the coordinate-wise %s of head and tail: %s" % (f.name, f.name, got), f.where())
